@@ -694,7 +694,9 @@ def num_expr(draw, depth=2, loopvar=None, fields=True):
     if choice <= 2:
         return ['bin', draw(st.sampled_from(['+', '-', '*', '/', '%'])), draw(n()), draw(n())]
     if choice == 3:
-        return ['bin', draw(st.sampled_from(['/', '%'])), draw(n()), draw(st.sampled_from([['num', 0], ['num', 0.0], ['bin', '-', ['num', 5], ['num', 5]]]))]
+        # zero divisors give 0; a divisor that is merely FALSY but no number ('' / an empty list) is a type error like any other
+        return ['bin', draw(st.sampled_from(['/', '%'])), draw(n()), draw(st.sampled_from([['num', 0], ['num', 0.0], ['bin', '-', ['num', 5], ['num', 5]], ['str', ''], ['lit', False],
+                                                                                            ['listcomp', ['name', 'r'], 'r', ['name', 'orders'], ['lit', False]]]))]
     if choice == 4:
         return ['neg', draw(n())]
     if choice == 5:
@@ -814,6 +816,12 @@ def bool_expr(draw, depth=3, loopvar=None, fields=True):
     if c <= 5:
         return ['or', draw(st.lists(b(), min_size=2, max_size=3))]
     if c == 6:
+        k = draw(st.integers(0, 5))
+        if k <= 1:
+            # `not` is Boolean whatever its operand: not not 42.5 is True (not 42.5), also when used as a value
+            inner = draw(st.one_of(num_expr(depth - 1, loopvar, fields), str_expr(depth - 1, loopvar, fields)))
+            dbl = ['not', ['not', inner]] if k == 0 else ['not', inner]
+            return dbl if draw(st.booleans()) else ['cmp', dbl, [[draw(st.sampled_from(['==', '!='])), ['lit', draw(st.booleans())]]]]
         return ['not', draw(b())]
     if c == 7:
         return ['if', draw(b()), draw(b()), draw(b())]
